@@ -42,11 +42,14 @@ Print Assumptions c14_evicts_least_recently_used.
     fails while the source is failing); only when auto-reload is off or the
     loader has no freshness information may it instead answer with what an
     earlier load for the same cache key obtained, that entry not having been
-    evicted since.  *)
-Theorem c14_caching_transparent : forall c ops name ns g a,
+    evicted since.  [via] distinguishes a direct get_template from a load made
+    from inside a render (include / render / extends), whose template is
+    rendered with the including template's context.  *)
+Theorem c14_caching_transparent : forall c ops name ns g0 a via,
   wf_cfg c -> Forall (wf_op c) ops -> wf_call c ns ->
   let s := final c (init c) ops in
-  let ob := fst (step c s (Load name ns g a)) in
+  let ob := fst (step c s (Load name ns g0 a via)) in
+  let g := if via then 0%N else g0 in
   ob = truth c s name ns g
   \/ (fail_next s = true /\ ob = NotFound)
   \/ ((c_auto_reload c && c_fresh c = false) /\
@@ -55,8 +58,8 @@ Proof. exact caching_transparent. Qed.
 Print Assumptions c14_caching_transparent.
 
 (** A served template is always bound to the caller's own globals. *)
-Theorem c14_callers_globals : forall c s name ns g a ct g',
-  fst (cached_load c s name ns g a) = Loaded ct g' -> g' = g.
+Theorem c14_callers_globals : forall c s name ns g a rebind ct g',
+  fst (cached_load c s name ns g a rebind) = Loaded ct g' -> g' = g.
 Proof. exact loaded_globals_are_callers. Qed.
 Print Assumptions c14_callers_globals.
 
